@@ -1,6 +1,6 @@
 (* C06 — spectral densities are calibrated: power, bandwidth and scaling laws (statements only; GENERATED table) *)
 From Coq Require Import ZArith List Bool Reals.
-From SK Require Import Arith Cpx AttrThms KernelPrims Kernels GenRef KernelLin.
+From SK Require Import Arith Cpx AttrThms KernelPrims Kernels KernelThms GenRef KernelLin DetrendPoly Sinusoid.
 From SK.gen Require Import AttrsGen KernelsGen.
 Import ListNotations.
 Close Scope Z_scope.
@@ -42,6 +42,18 @@ Proof. intros. rewrite !Gen_poly_csd_ref. apply (ref_csd_scale _ _ (fun x => sam
    (superseded) that the statistics themselves scale as XX -> c^2 XX, XY -> c d XY (kernel homogeneity) and the sinusoid
    response A^2/2 up to the window's leakage are checked by the direct oracle / C01's definition, not restated here. *)
 End C06.
+(* a sinusoid A cos(w0 n + phi) seen through ANY real window, analysed at its own frequency (X as in the definition of C01):
+   X(w0) = (A/2)(e^{i phi} S1 + e^{-i phi} W(2 w0)); the power spectrum 2|X|^2/S1^2 deviates from A^2/2 by at most
+   2 rho + rho^2 with rho = |W(2 w0)|/S1 — the window's leakage from the negative-frequency image *)
+Theorem C06_sinusoid_response : forall (win : nat -> R) (A w0 phi : R) (L : Z),
+  dft_def w0 (sig win A w0 phi) L =
+  ((A / 2 * (cos phi * S1 win L + C2 win w0 phi L))%R, (A / 2 * (sin phi * S1 win L - S2 win w0 phi L))%R).
+Proof. exact sinusoid_response. Qed.
+Theorem C06_sinusoid_calibration_bound : forall (win : nat -> R) (A w0 phi : R) (L : Z), S1 win L <> 0%R ->
+  let X := dft_def w0 (sig win A w0 phi) L in let rho := sqrt (rho2 win w0 phi L) in
+  (Rabs ((fst X * fst X + snd X * snd X) / ((A / 2) * (A / 2) * (S1 win L * S1 win L)) - 1) <= 2 * rho + rho * rho)%R \/ A = 0%R.
+Proof. exact sinusoid_calibration_bound. Qed.
+Print Assumptions C06_sinusoid_calibration_bound.
 Print Assumptions C06_power_spectrum.
 Print Assumptions C06_channel_scaling.
 Print Assumptions C06_kernel_homogeneity_poly.
